@@ -5,6 +5,7 @@
 mod c19;
 mod c12;
 mod c14;
+mod c03real;
 mod slowproc;
 mod sysvars;
 mod content;
@@ -102,7 +103,13 @@ fn main() {
         "c19" => c19::run(&args, &mut model),
         "c01" => int::run(&args, &mut model, "C01"),
         "c02" => int::run(&args, &mut model, "C02"),
-        "c03" => int::run(&args, &mut model, "C03"),
+        "c03" => {
+            let mut r = int::run(&args, &mut model, "C03");
+            if args.replay.is_none() {
+                c03real::run(&mut r);
+            }
+            r
+        }
         "c06" => int::run(&args, &mut model, "C06"),
         "c07" => int::run(&args, &mut model, "C07"),
         "c09" => {
